@@ -17,7 +17,7 @@ def reg(pid, **kw):
 reg('C02', engine='llsym',
     text='Bounded symbolic execution (own LLVM-IR executor + z3) of the real bit-field kernels with symbolic width, '
          'shift, storage word and Python int: every obligation of the statement (range-exact accept/reject, '
-         'round-trip, isolation, read == C semantics) is a solver query over all values; no sampling.',
+         'round-trip, isolation, read == C semantics) is a solver query over all values; no sampling. The placement (bit shift / width) of two-member aggregates of bit-fields, struct and union, is decided by the obligations of C01, run here as well.',
     note='Trusted: clang-14 IR of src/c/_cffi_backend.c at -O0+mem2reg, llsym semantics (validated concretely '
          'against the real build on every run), CPython API contracts in vf/pystubs.py, placement invariant '
          'bitshift+bitsize<=8*size (established by C01). _Bool limited to width 1.',
@@ -106,7 +106,7 @@ reg('C19', engine='llsym',
     text='Bounded symbolic execution of the real minibuffer index/slice read and write paths, direct_from_buffer and '
          'b_memmove against a bytearray model written in z3: every index/slice bound (any int or None), every '
          'content, every buffer size up to the bound with an exact-size region so that any stray access is reported; '
-         'from_buffer length arithmetic for any exporter length/item size; memmove for every overlap.',
+         'from_buffer length arithmetic for any exporter length/item size; memmove for every overlap. The window ffi.buffer(cdata[, size]) creates (b_buffer_new) starts at the cdata and has the explicit size (0 included) or the natural size, for every array length and size.',
     note='Trusted: clang IR, llsym semantics, CPython contracts (PySlice_Unpack/AdjustIndices, buffer export '
          'counting) in vf/pystubs.py. Buffer size <= 3 (5) bytes; b_buffer_new size derivation not covered.',
     technique='symbolic execution of LLVM IR, SMT (z3 bit-vectors)')
